@@ -32,7 +32,7 @@ EXPR = ["0", "1", "2", "3", "0.5", "10", "1000", "99999999999999999999", ".", "e
 EXPR_Q = ["0", "1", "2", "0.5", "1000", "99999999999999999999", "-99999999999999999999", "e", "+", "-", "*", "/", "^", "(", ")", "mod", "round",
           "=", "<", "and", "or", "not", "ceil", "trunc", "sqrt", "exp", "ln", "acos", "x"]
 ERR = 'class="error"'
-GRAPH_LIMIT = 3.0
+GRAPH_LIMIT = 1.0
 
 
 class Timeout(BaseException):
@@ -357,8 +357,8 @@ def main(run):
     for n in (1, 2):
         chunks.append(("graphs", n, list(digraphs(n))))
     g3 = list(digraphs(3))
-    for k in range(16):
-        chunks.append(("graphs", 3, g3[k::16]))
+    for k in range(64):
+        chunks.append(("graphs", 3, g3[k::64]))
     for n, edges in families():
         chunks.append(("graphs", n, [edges]))
     depths = list(range(1, 121)) if not q else list(range(1, 121, 7)) + [98, 99, 100, 101, 120]
